@@ -372,6 +372,9 @@ class Dimension(metaclass=_Interned):
         additional dimensions, but be aware that doing so will change the cardinality of
         the `exponents` tuple for _all_ defined Dimensions.
         """
+        if name in cls._by_name:
+            raise ValueError(f"A dimension named {name} is already defined")
+
         index = len(cls._fundamental)
         if index == 0:
             # the first dimension must be Number, with an exponent of zero (identity)
@@ -403,6 +406,9 @@ class Dimension(metaclass=_Interned):
         cls, dimension: "Dimension", name: str, symbol: Optional[str] = None
     ) -> "Dimension":
         """Registers a new named dimension derived from other dimension"""
+        if cls._by_name.get(name, dimension) is not dimension:
+            raise ValueError(f"A dimension named {name} is already defined")
+
         dimension.name = name
         dimension.symbol = symbol or str(dimension)
         cls._by_name[name] = dimension
